@@ -9,14 +9,19 @@
   Clause checklist (monitor clause ↦ theorem):
     group_order, group_required   C19_group_order, C19_group_order_header, C19_group_order_trailer
                                   (`Expands` pins order, tags, own flags, the members of every group and, up to
-                                  membership, the required-set of every group), C19_expands_functional
+                                  membership, the required-set of every group), C19_expands_functional,
+                                  C19_expands_functional_req
     fields                        C19_fields, C19_fields_header, C19_fields_trailer
     required                      C19_required, C19_required_header, C19_required_trailer;
                                   C19_required_orig_witness (the unchanged tree violates it, D10)
     types_enums                   C19_types_enums
     refuses_dangling              C19_refuses_dangling
-    loads_wellformed              C19_loads_wellformed
-    (executable spec of the monitor) C19_spec_exec_sound, C19_spec_lookup
+                                  (needs unique names: C19_refuses_dangling_needs_wf)
+    loads_wellformed              C19_loads_wellformed, C19_loads_wellformed_orig
+    messages                      C19_messages
+    fields_map                    not stated: `MDef.field?` is a definition of the model (last flattened field of a tag)
+    (executable spec of the monitor) C19_spec_exec_sound, C19_spec_lookup, C19_monitor_guards,
+                                  C19_monitor_msg_accepts, C19_monitor_load_accepts, C19_monitor_refused_accepts
 -/
 import Qfx.Lemmas.Dict
 open Qfx.Dict
@@ -48,6 +53,11 @@ theorem C19_group_order_trailer (a : Ast ν) (wf : WFNames a) (fuel : Nat) (d : 
 theorem C19_expands_functional (a : Ast ν) (wf : WFNames a) (ms : List (Member ν)) (fs fs' : List FDef)
     (h : Expands a ms fs) (h' : Expands a ms fs') : sameShapeL fs fs' = true :=
   h.sameShape wf fs' h'
+
+/-- … and the required-set of every group up to membership (clause group_required) -/
+theorem C19_expands_functional_req (a : Ast ν) (wf : WFNames a) (ms : List (Member ν)) (fs fs' : List FDef)
+    (h : Expands a ms fs) (h' : Expands a ms fs') : sameReqL fs fs' = true :=
+  h.sameReq wf fs' h'
 
 /-! ## fields: `Tags` are exactly the reachable tags -/
 
@@ -149,6 +159,51 @@ theorem C19_spec_lookup (a : Ast ν) (wf : WFNames a) :
   obtain ⟨t', ht'⟩ := Option.isSome_iff_exists.1 (specFieldNum_isSome.2 ⟨t, h⟩)
   rw [ht', FieldNum.unique wf h (specFieldNum_sound ht')]
 
+/-! ## the monitor's guards are the declarative predicates, and the monitor accepts the (fixed) model -/
+
+theorem C19_monitor_guards (a : Ast ν) :
+    (wfNamesB a = true ↔ WFNames a) ∧ (danglingB a = true ↔ Dangling a) :=
+  ⟨wfNamesB_iff a, danglingB_iff a⟩
+
+/-- clauses fields, required, group_order, group_required of `monMsg` are silent on what the model builds -/
+theorem C19_monitor_msg_accepts (a : Ast ν) (wf : WFNames a) (fuel f : Nat) (d : Dict ν)
+    (h : buildWith a fuel newMessageDef = .ok d) (mt : ν) (ms : List (Member ν)) (hm : MsgDef a mt ms) :
+    ∃ m, d.msg? mt = some m ∧
+      monMsg a f ms { tags := m.tags, req := m.reqTags, fmapOK := true, flat := m.flat } = [] := by
+  obtain ⟨ps, hd, he, hr⟩ := buildWith_msg wf h hm
+  exact ⟨_, hd, monMsg_silent wf f (d := { tags := _, req := _, fmapOK := true, flat := _ })
+    he (he.tags_iff wf) hr rfl⟩
+
+/-- clause messages: exactly the declared message types, header and trailer are loaded -/
+theorem C19_messages (a : Ast ν) (fuel : Nat) (mk : List Part → MDef) (d : Dict ν)
+    (h : buildWith a fuel mk = .ok d) :
+    (∀ mt, mt ∈ d.msgs.map (·.1) ↔ ∃ ms, MsgDef a mt ms) ∧
+    d.header.isSome = a.header.isSome ∧ d.trailer.isSome = a.trailer.isSome := by
+  obtain ⟨hk, hh, ht⟩ := buildWith_loaded h
+  refine ⟨fun mt => (hk mt).trans ⟨?_, ?_⟩, hh, ht⟩
+  · rintro ⟨c, hc, rfl⟩; exact ⟨c.2, hc⟩
+  · rintro ⟨ms, hm⟩; exact ⟨(mt, ms), hm, rfl⟩
+
+/-- `monLoad` is silent when the model loads a file with unique names … -/
+theorem C19_monitor_load_accepts (a : Ast ν) (wf : WFNames a) (fuel : Nat) (mk : List Part → MDef) (d : Dict ν)
+    (h : buildWith a fuel mk = .ok d) :
+    monLoad a (.loaded (d.msgs.map (·.1)) d.header.isSome d.trailer.isSome) = [] :=
+  monLoad_loaded_silent wf h
+
+/-- … and when the model refuses a file -/
+theorem C19_monitor_refused_accepts (a : Ast ν) (e : BErr) (h : build a = .error e) :
+    monLoad a .refused = [] := by
+  unfold monLoad
+  simp only
+  split
+  · rename_i hwf
+    simp only [Bool.and_eq_true, Bool.not_eq_true'] at hwf
+    obtain ⟨⟨h1, h2⟩, h3⟩ := hwf
+    obtain ⟨d, hd⟩ := C19_loads_wellformed a ((wfNamesB_iff a).1 h1)
+      (fun hdg => by rw [(danglingB_iff a).2 hdg] at h2; cases h2) h3
+    rw [hd] at h; cases h
+  · rfl
+
 end
 
 /-! ## the unchanged tree computed `RequiredTags` wrongly (D10) -/
@@ -180,6 +235,18 @@ theorem C19_required_orig_witness :
     · cases hf
     · exact reqM_nil hr
   · exact reqM_nil hr
+
+/-! ## `refuses_dangling` needs unique component names: a second declaration of a name is never looked at -/
+
+def C19_a3 : Ast Nat :=
+  { fields := [], comps := [(1, []), (1, [.field 99 true])], msgs := [], header := none, trailer := none }
+
+theorem C19_refuses_dangling_needs_wf : Dangling C19_a3 ∧ ∃ d, build C19_a3 = .ok d := by
+  refine ⟨⟨[.field 99 true], by simp [Ast.bodies, C19_a3], fun h => ?_⟩, Except.isOkB_iff.1 (by decide)⟩
+  cases h with
+  | field hf _ =>
+    obtain ⟨f, hf, _⟩ := hf
+    simp [C19_a3] at hf
 
 /-! ## non-vacuity -/
 
@@ -217,8 +284,10 @@ example : ∃ d, buildWith C19_a1 (C19_a1.size + 1) newMessageDef = .ok d ∧
 
 /-- tag 55 is required in message 0 (through the required component 100), tag 448 is reachable but not required -/
 example : Req C19_a1 0 55 ∧ Reach C19_a1 0 448 := by
-  have f3 : FieldNum C19_a1 3 55 := ⟨_, by simp [C19_a1], rfl, rfl⟩
-  have f5 : FieldNum C19_a1 5 448 := ⟨_, by simp [C19_a1], rfl, rfl⟩
+  have f3 : FieldNum C19_a1 3 55 :=
+    ⟨{ name := 3, num := 55, type := 0, enums := [] }, by simp [C19_a1], rfl, rfl⟩
+  have f5 : FieldNum C19_a1 5 448 :=
+    ⟨{ name := 5, num := 448, type := 0, enums := [] }, by simp [C19_a1], rfl, rfl⟩
   have c100 : CompDef C19_a1 100 [.field 3 true, .comp 101 false] := by simp [CompDef, C19_a1]
   have c101 : CompDef C19_a1 101 [.group 4 false [.field 5 true]] := by simp [CompDef, C19_a1]
   have m0 : MsgDef C19_a1 0 [.comp 100 true, .field 2 false] := by simp [MsgDef, C19_a1]
